@@ -26,6 +26,18 @@ package witness
 //@   returns [C14] no-bytes-with-error: ret1 != nil ==> isnilb(ret0)
 //@   ensures [C14] forget-on-unknown-outcome: gReplaceTried == 1 && gReplaceOK == 0 ==> stateOf(w, origin).checkpoint == nil
 //@   ensures [C14] at-most-one-cas: gReplaceTried <= 1
+//@   modifies gUpdCalls, gUpdRet
+//@   defines gUpdCalls == old(gUpdCalls) + 1 && gUpdRet == ret0
+//@ ghost var gUpdCalls int
+//@ ghost var gUpdRet bytes
+// Every place where a witness or mirror key signs anything: checkpoint cosignatures are produced only by
+// updateCheckpoint (witness) and processAddEntriesCommit (mirror), subtree cosignatures only by
+// processSignSubtreeRequest; no code calls a signer's Sign method directly.
+//@ census [C14,C15,C16] checkpoint-cosigning-sites: callers note.Sign within witness.(*Witness).updateCheckpoint, witness.(*Witness).processAddEntriesCommit in witness
+//@ census [C14,C16] subtree-cosigning-sites: callers torchwood.(*CosignatureSigner).SignSubtree within witness.(*Witness).processSignSubtreeRequest in witness
+//@ census [C14,C16] no-direct-signer-use: callers note.Signer.Sign within none in witness
+//@ census [C14,C16] no-direct-cosigner-use: callers torchwood.(*CosignatureSigner).Sign within none in witness
+//@ census [C14] update-callers: callers witness.(*Witness).updateCheckpoint within witness.(*Witness).processAddCheckpointRequest in witness
 //@ pure func stateOf(w Ref, origin string) *witness.logState
 
 //@ func witness.(*Witness).processAddCheckpointRequest props C14
@@ -33,7 +45,8 @@ package witness
 //@   requires forall o string :: !held(&stateOf(w, o).mu)
 //@   call witness.(*Witness).updateCheckpoint requires [C14] log-signature-verified: openedBy(n, noteBytes, v) && c == ckptOf(n.Text) && c.Extension == ""
 //@   call witness.(*Witness).updateCheckpoint requires [C14] interpreted-values: c_origin == c.Origin && c_newSize == c.N && c_newHash == c.Hash && c_oldSize == oldSize && c_submitted == n && c_proof == proof && oldSize >= 0
-//@   returns [C14] cosig-only-from-update: ret1 != nil ==> isnilb(ret0) || true
+//@   init gUpdCalls == 0
+//@   returns [C14] cosignatures-come-only-from-the-update-path: !isnilb(ret0) ==> gUpdCalls == 1 && ret0 == gUpdRet
 
 //@ func witness.(*Witness).processSignSubtreeRequest props C16
 //@   requires w != nil && w.c != nil && w.s2 != nil && !held(&w.logsMu)
